@@ -12,7 +12,7 @@ from vf.checks import c08
 
 PID = 'C20'
 
-INPUTS = ['okE', 'okH', 'okA', 'okHTML', 'okDef', 'failR', 'failC', 'failP', 'failX']
+INPUTS = ['okE', 'okH', 'okA', 'okSDAC', 'okHTML', 'okDef', 'failR', 'failC', 'failP', 'failX']
 PRIORS = [None, 'okOdd', 'okX', 'failX']     # what the same interpreter was asked before (in-process entry points only)
 OUTARGS = ['none', 'rel', 'subdir', 'abs', 'dircomponent']
 STARTS = ['A', 'B/sub']
@@ -55,6 +55,8 @@ def cli_case(arg):
         target = os.path.join(cwd, 'x.out', 'x.out')
     env = dict(os.environ, PYTHONPATH=runner.repo_src())
     env.pop('GEOPHIRES_X_VERIF', None)
+    src_dir0 = os.path.join(runner.repo_src(), 'geophires_x')
+    before = {x: (os.stat(os.path.join(src_dir0, x)).st_mtime_ns if os.path.exists(os.path.join(src_dir0, x)) else None) for x in ('rel.html', 'x.out', 'HDR.out', 'HDR.json')}
     p = subprocess.run(argv, cwd=cwd, env=env, capture_output=True, text=True, timeout=600)
     out = {'rc': p.returncode, 'target': target, 'report': None, 'json_ok': None, 'stderr': p.stderr[-300:]}
     if os.path.isfile(target):
@@ -75,7 +77,9 @@ def cli_case(arg):
             created.append(os.path.relpath(os.path.join(dp, x), root))
     out['created'] = sorted(created)
     src_dir = os.path.join(runner.repo_src(), 'geophires_x')
-    out['stray_in_src'] = [x for x in ('rel.html', 'x.out', 'HDR.out', 'HDR.json') if os.path.exists(os.path.join(src_dir, x))]
+    # files this run created or rewrote in the package directory (a file that was already there and is untouched is not this run's doing)
+    out['stray_in_src'] = [x for x in ('rel.html', 'x.out', 'HDR.out', 'HDR.json') if os.path.exists(os.path.join(src_dir, x))
+                           and os.stat(os.path.join(src_dir, x)).st_mtime_ns != before[x]]
     return out
 
 
@@ -229,11 +233,11 @@ def plan(tier, seed):
 def run(tier, seed, budget=None):
     return e1.run_generic(
         sys.modules[__name__], PID, tier, seed, budget,
-        rule=('finite complete product: 9 inputs (5 succeeding incl. add-ons, one with a relative HTML output parameter, one relying on defaults; 4 failing '
+        rule=('finite complete product: 10 inputs (6 succeeding incl. add-ons, S-DAC-GT, one with a relative HTML output parameter, one relying on defaults; 4 failing '
               'while reading / calculating / printing / through a bare sys.exit()) x {python -m geophires_x as a real subprocess x 5 output arguments (none, '
               'relative, sub-directory, absolute, a name equal to a directory component); GeophiresXClient, direct main(), the client as embedded by the '
               'Monte-Carlo work_package, each x {fresh interpreter, interpreter that already served a many-non-defaults request, a request with output-unit directives, interpreter that already '
-              'served an aborting request}} x 2 starting directories = 306 executions; reports compared across all entry points, file placement and '
+              'served an aborting request}} x 2 starting directories = 340 executions; reports compared across all entry points, file placement and '
               'exit status on the CLI'),
         assumptions=['the direct main() entry point is given absolute paths (as the client does)',
                      'quick and thorough tiers are the same complete product'])
